@@ -292,6 +292,9 @@ package keeper
 //@   // C12: x/auth's genesis validation rejects a continuous vesting account whose start time is not before its end time;
 //@   // an account created here must survive an export and re-import of the application state
 //@   ensures [auth-genesis-valid] returnedError == nil ==> $accStart[fromBech32(toAddr)] < $accEnd[fromBech32(toAddr)]
+//@   // C08: "a request above what is still locked fails" - and one for exactly what is still locked does not: an acceptance
+//@   // witness (some successful return has amount == the pool's remainder)
+//@   reach [accepts-exact-remainder] returnedError == nil && amount > 0 && amount == available
 //@   prop C08 C09 C05 C17 C20 C12
 //@ loop Keeper.SendToNewVestingAccount#1
 //@   invariant 0 <= \i && \i <= len(accVestingPools.VestingPools)
